@@ -78,6 +78,7 @@ func c06Inputs() []plan.Input {
 		{Name: "iarr", Val: plan.Value{T: "obj:immarray", A: []plan.Value{plan.Int(1), plan.Int(2)}}},
 		{Name: "imp", Val: plan.Value{T: "obj:immmap", M: map[string]plan.Value{"k": plan.Int(1)}}},
 		{Name: "h", Host: "id"},
+		{Name: "stz", Val: plan.Value{T: "obj:stringer", I: 7}},
 	}
 }
 
@@ -232,6 +233,7 @@ func genC06Strlen(r *plan.Rng) *plan.Plan {
 		{"g30 := format(\"%q\", \"\\\"\\\"\\\"\\\"\\\"\\\"\")", "g30z := 1"},
 		{"q31 := \"\"", "for i := 0; i < R * 7; i++ {", "	q31 += \"\\\"\"", "}", "g31 := format(\"%q\", q31)"},
 		{"q32 := \"\"", "for i := 0; i < R * 3; i++ {", "	q32 += \"é\\n\"", "}", "g32 := format(\"%+q\", q32)", "g32b := format(\"%q\", bytes(q32))"},
+		{"g33 := format(\"%v|%v\", stz, stz)", "g33b := format(\"[%s]\", stz)", "g33c := string(stz) + format(\"%d\", n)", "g33d := format(\"%v\", [stz, n])"},
 		{"g14 := string(n * 1000000) + string(fl) + string(true) + string(undefined)", "g14b := format(\"%t|%c|%U\", true, chr, chr)"},
 	}
 	n := r.Range(1, 3)
